@@ -1117,6 +1117,50 @@ def run_tab_rerender(case):
                   detail="differs from the tab of an identical bar that was not rendered before the change")
 
 
+RETUNE_ENTRIES = [[["4", [64]], ["4", [69, 72]], ["2", [60]]], [["4", [55, 59, 64]], ["4", None], ["2", [67]]], [["1", [64, 69, 72]]],
+                  [["4", [40]], ["4", [45, 50]], ["2", [43]]]]
+
+
+def run_tab_retune(case):
+    """case = [tkey A | None, tkey B | None, entries index, via]: one and the same Bar object (the same Note objects) is
+    rendered for tuning A and then for tuning B; the second tab must be the tab of an identical bar that was never
+    rendered for A."""
+    S = engine.S
+    ka, kb, ei, via = case
+    ta, tb = view(ka), view(kb)
+
+    def build():
+        b = Bar("C", (4, 4))
+        for v, ps in RETUNE_ENTRIES[ei]:
+            if ps is None:
+                b.place_rest(V.BY_LABEL[v][1])
+            else:
+                b.place_notes(NoteContainer([mknote(p) for p in ps]), V.BY_LABEL[v][1])
+        return b
+
+    def render(b, tv):
+        if via == "bar":
+            return _render_outcome(tablature.from_Bar, b, **_kw(tv, "width", 60))
+        t = Track()
+        t.add_bar(b)
+        return _render_outcome(tablature.from_Track, t, **_kw(tv, "maxwidth", 80))
+
+    bar = build()
+    first = render(bar, ta)
+    second = render(bar, tb)
+    fresh = render(build(), tb)
+    S.trans(3)
+    S.count("retunes")
+    if first[0] == "text" and fresh[0] == "text":
+        S.count("retunes_playable_on_both_tunings")
+    S.outcome((via, first[0], second[0]))
+    if second != fresh:
+        S.problem("%s of a bar rendered for %s and then for %s" % ("from_Bar" if via == "bar" else "from_Track", ka, kb),
+                  fresh[1].split("\n") if fresh[0] == "text" else list(fresh),
+                  second[1].split("\n") if second[0] == "text" else list(second),
+                  detail="differs from the tab (for the second tuning) of an identical bar that was never rendered for the first")
+
+
 def gen_tab_rerender(tkey):
     for ei in range(len(RERENDER_ENTRIES)):
         for edit in RERENDER_EDITS:
@@ -1383,6 +1427,7 @@ CLAUSES = {
     "tab_attr": run_tab_attr,
     "tab_rerender": run_tab_rerender,
     "tab_same_name": run_tab_same_name,
+    "tab_retune": run_tab_retune,
     "tab_bar": run_tab_bar,
     "tab_track": run_tab_track,
     "tab_composition": run_tab_composition,
@@ -1469,6 +1514,13 @@ def explore(ctx):
         ctx.product("tab_note", [(i, tier) for i in range(ntab)], gen_tab_note)
     if ctx.want("tab_container"):
         ctx.product("tab_container", [(i, tier) for i in range(ntab)], gen_tab_container)
+    if ctx.want("tab_retune"):
+        tun = ctx.pick(DEEP_Q[:4], DEEP_Q + DEEP_T)
+        ctx.bound("tab_retune", {"tunings": tun, "bars": len(RETUNE_ENTRIES), "routes": ["bar", "track"]})
+        ctx.product("tab_retune", list(range(len(tun))), lambda i: ([tun[i], kb, ei, via] for kb in tun if kb != tun[i]
+                                                                    for ei in range(len(RETUNE_ENTRIES)) for via in ("bar", "track")))
+        if not ctx.only:
+            ctx.guard("retunes playable on both tunings", ctx.counter("retunes_playable_on_both_tunings"), 10)
     if ctx.want("tab_same_name"):
         n = len(SAME_NAME_TUNINGS)
         ctx.bound("tab_same_name", {"tunings": SAME_NAME_TUNINGS, "names": ["test", "Guitar"], "ordered pairs": n * n})
